@@ -32,6 +32,10 @@ fn run_one(rep: &mut Report, b: &Branch, bits: &Bits, n: &mut u64, f: &ExpF, sha
 const AT: u8 = 0;
 const SP: u8 = 32;
 
+pub const DICTIONARY: [&str; 16] = [
+    "SART ACTIVE", "SART TEST", "MOB ACTIVE", "MOB TEST", "EPIRB ACTIVE", "EPIRB TEST", "MAYDAY", "PAN PAN", "SECURITE", "TEST", "NOT AVAILABLE", "N/A", "UNKNOWN", "NONE", "NULL", "0",
+];
+
 pub fn shapes(k: usize, r: &mut Rng) -> Vec<(String, Vec<u8>)> {
     let mut v: Vec<(String, Vec<u8>)> = Vec::new();
     let letters = |r: &mut Rng, n: usize| -> Vec<u8> { (0..n).map(|_| 1 + r.below(26) as u8).collect() };
@@ -96,6 +100,52 @@ pub fn shapes(k: usize, r: &mut Rng) -> Vec<(String, Vec<u8>)> {
         let mut s = vec![SP; k];
         s[k / 2] = AT;
         v.push(("space-at-space-only".into(), s));
+    }
+    // fields made of padding characters only, both kinds mixed: every pattern up to 10
+    // characters, 600 random patterns and the run patterns beyond (the three trimming steps apply in
+    // a fixed order, so "@@@ @@" is not the same as "@@@@@@")
+    if k <= 10 {
+        for m in 0..(1u32 << k) {
+            v.push(("padding-mix".into(), (0..k).map(|i| if m >> i & 1 == 1 { SP } else { AT }).collect()));
+        }
+    } else {
+        for _ in 0..600 {
+            v.push(("padding-mix".into(), (0..k).map(|_| if r.bool() { SP } else { AT }).collect()));
+        }
+        for i in 0..=k {
+            v.push(("padding-mix".into(), (0..k).map(|j| if j < i { AT } else { SP }).collect()));
+            v.push(("padding-mix".into(), (0..k).map(|j| if j < i { SP } else { AT }).collect()));
+        }
+        v.push(("padding-mix".into(), (0..k).map(|j| if j % 2 == 0 { SP } else { AT }).collect()));
+        v.push(("padding-mix".into(), (0..k).map(|j| if j % 2 == 1 { SP } else { AT }).collect()));
+    }
+    // one real character on a background of padding, at every position (a field that is "unset"
+    // except for its last character, or whose only character has few bits set)
+    for pos in 0..k {
+        for bg in [AT, SP] {
+            for ch in [1u8, 7, 24, 63, 33, if bg == AT { SP } else { AT }] {
+                let mut s = vec![bg; k];
+                s[pos] = ch;
+                v.push(("single-on-padding".into(), s));
+            }
+        }
+    }
+    // texts a decoder might recognise: the fixed texts of locating devices (ITU-R M.1371 annex 9),
+    // safety signal words and the usual ways of writing "nothing", each cut off after every
+    // character, followed by '@' padding, blanks or letters
+    for w in DICTIONARY.iter() {
+        let codes: Vec<u8> = w.bytes().map(|c| if c >= 64 { c - 64 } else { c }).collect();
+        for cut in 1..=codes.len().min(k) {
+            for bg in 0..3 {
+                let mut s: Vec<u8> = match bg {
+                    0 => vec![AT; k],
+                    1 => vec![SP; k],
+                    _ => letters(r, k),
+                };
+                s[..cut].copy_from_slice(&codes[..cut]);
+                v.push(("dictionary".into(), s));
+            }
+        }
     }
     for pos in 0..k {
         let mut s = letters(r, k);
